@@ -102,6 +102,10 @@ def main(argv=None) -> int:
 
             selftest = st.run_for_property(pid, ctx)
             selftest["tree_is_reference"] = st.tree_digest(ctx.root) == REFERENCE_DIGEST
+            und = [o for o in obs if o.note and getattr(o, "undecided", False)]
+            if selftest["tree_is_reference"] and und:
+                # every clause is decided on the tree the rules were written against; an undecided one means a rule lost its anchor
+                selftest.setdefault("errors", []).extend(f"clause undecided on the reference tree: {o.rule} {o.construct}" for o in und[:5])
     except Exception as e:  # noqa: BLE001
         from .model import AnalysisError as AE
 
